@@ -12,7 +12,8 @@ RULE = ('lattice: for every (format table, record kind, field) of the four live 
         'record drawn at once from the same per-field lattice (Hypothesis). Non-trivial = the plain %-formatted '
         'target is within one column of its width or wider, or the target is None with both neighbours present; '
         'distinct = distinct (table, kind, field, value) JSON.'
-        ' Also: every lattice value as the last one of a shorter list (trailing values left off); Hypothesis sequences of 2..6 records written through ONE file object (write_values) and read back through another (read_values); generated data models (gens/data.py) with 1..3 real fields anywhere (rock properties, block volumes, generator tables, time-step tables, primary variables ...) replaced by lattice values or an inner absent value, written and read back by the library\'s own section writers / readers (t2data.write / t2data.read) and by an independent reader: every field as the format carries it, a loud failure only when something did not fit.')
+        ' Also: every lattice value as the last one of a shorter list (trailing values left off); Hypothesis sequences of 2..6 records written through ONE file object (write_values) and read back through another (read_values); generated data models (gens/data.py) with 1..3 real fields anywhere (rock properties, block volumes, generator tables, time-step tables, primary variables ...) replaced by lattice values or an inner absent value, written and read back by the library\'s own section writers / readers (t2data.write / t2data.read) and by an independent reader: every field as the format carries it, a loud failure only when something did not fit.'
+        ' Rounds 8-10: a quarter of the whole-record cases go through plain fixed_format_file objects (one per table, all alive, created in a drawn order); values that cannot be written (integers one digit too wide, coordinates of eleven columns) handed to t2incon.write / mulgrid.write: a loud failure or a complete file.')
 ASSUMPTIONS = ['read side uses the read-function dictionary each format really uses '
                '(default for data/extra-precision/geometry tables, fortran for initial conditions)',
                'an all-blank string field counts as "nothing" (the library\'s string reader returns the blanks)']
